@@ -13,6 +13,8 @@
       back-rotation, spinor factors, parities) is checked on the real code by the oracle, not proved.
 -/
 import WB.Lemmas.C20
+import WB.Lemmas.C20Avg
+import WB.Lemmas.C20Bridge
 import Mathlib.Algebra.BigOperators.Group.Finset.Basic
 import Mathlib.Algebra.Module.Defs
 import Mathlib.Algebra.Group.Action.Defs
@@ -320,6 +322,122 @@ theorem wrong_count_not_idempotent :
   rw [hcard] at this
   norm_num at this
 end nonvacuous
+
+/-! ## Part C — `average_XX_block` IS that group average
+
+  `BlockRep` (in `Lemmas/C20Avg.lean`) lists what the code's ingredients must satisfy: the atom maps are group actions, the
+  home-cell translations satisfy the cocycle `T(gh,a) − T(gh,b) = g·(T(h,a) − T(h,b)) + T(g,ha) − T(g,hb)`, the orbital
+  matrices the (co)representation rule `D(gh,a) = ω(g,h) · D(g,ha) · conj^{tr g} D(h,a)` with a unimodular phase common
+  to both blocks, `D(1,a)` a common unimodular scalar, `tr` and the Cartesian matrices `Rc` (rotation × parity signs,
+  real) are homomorphisms.  Under exactly these hypotheses `pull` is contravariant, `g • X := pull g⁻¹ X` is an additive
+  group action commuting with rational scalars, and the sum the code forms is its average. -/
+
+section block
+variable {G ι A₁ A₂ n₁ n₂ c K : Type*} [Group G] [Fintype G] [AddCommGroup ι] [DistribMulAction G ι]
+    [MulAction G A₁] [MulAction G A₂] [Fintype n₁] [Fintype n₂] [DecidableEq n₁] [DecidableEq n₂]
+    [Fintype c] [DecidableEq c] [Field K] [StarRing K] [CharZero K]
+variable (S : BlockRep G ι A₁ A₂ n₁ n₂ c K)
+
+/-- mode "sum" of `average_XX_block`: every listed operation `g` adds its back-rotated contribution `pull g X` to the
+    entry `(R, a, b)`, and the total is divided by the number of operations -/
+noncomputable def blockAverage (X : BlockFn S) : BlockFn S := ((Fintype.card G : ℚ)⁻¹) • ∑ g : G, pull S g X
+
+/-- T4.  `average_block_is_group_average`: the block formula the code evaluates is the group average `avg` of the action
+    `g • X = pull g⁻¹ X` (the code sums the pull-backs by `g`, the average sums the images under `g`; the two sums are
+    reindexed by `g ↦ g⁻¹`, which is why the operation list must be closed under inverses). -/
+theorem average_block_is_group_average (X : BlockFn S) : blockAverage S X = avg G ℚ X := by
+  unfold blockAverage avg
+  congr 1
+  exact Fintype.sum_equiv (Equiv.inv G) _ _ (fun g => by rw [smul_def]; simp)
+
+/-- hence the result of the code's formula is invariant under every operation … -/
+theorem blockAverage_invariant (g : G) (X : BlockFn S) : g • blockAverage S X = blockAverage S X := by
+  rw [average_block_is_group_average]; exact smul_avg g X
+
+/-- … is unchanged if it is symmetric already … -/
+theorem blockAverage_of_invariant (X : BlockFn S) (hX : ∀ g : G, g • X = X) : blockAverage S X = X := by
+  rw [average_block_is_group_average]
+  exact avg_of_invariant (by exact_mod_cast (Fintype.card_pos (α := G)).ne') X hX
+
+/-- … and symmetrising twice changes nothing. -/
+theorem blockAverage_idem (X : BlockFn S) : blockAverage S (blockAverage S X) = blockAverage S X := by
+  simp only [average_block_is_group_average]
+  exact avg_idem (by exact_mod_cast (Fintype.card_pos (α := G)).ne') X
+
+end block
+
+section blockherm
+open Matrix
+variable {G ι A n c K : Type*} [Group G] [Fintype G] [AddCommGroup ι] [DistribMulAction G ι]
+    [MulAction G A] [Fintype n] [DecidableEq n] [Fintype c] [DecidableEq c] [Field K] [StarRing K] [CharZero K]
+variable (S : BlockRep G ι A A n n c K)
+
+/-- `X(R)_{ab} ↦ (X(−R)_{ba})†` on a diagonal block pair -/
+def blockDagger (X : BlockFn S) : BlockFn S := fun R a b i => (X (-R) b a i)ᴴ
+
+omit [Fintype G] [CharZero K] in
+/-- on a diagonal block pair (left and right data equal) the Hermitian-conjugate reflection commutes with the
+    contribution of every operation -/
+theorem blockDagger_pull (hT : S.T₁ = S.T₂) (hD : S.D₁ = S.D₂) (h : G) (X : BlockFn S) :
+    blockDagger S (pull S h X) = pull S h (blockDagger S X) := by
+  funext R a b i
+  have hpos : h • (-R) + S.T₁ h b - S.T₂ h a = -(h • R + S.T₁ h a - S.T₂ h b) := by
+    rw [hT, smul_neg]; abel
+  show (pull S h X (-R) b a i)ᴴ = pull S h (blockDagger S X) R a b i
+  unfold pull blockDagger
+  rw [← cj_conjTranspose, conjTranspose_sum, hpos, hD]
+  congr 1
+  apply Finset.sum_congr rfl
+  intro j _
+  rw [conjTranspose_smul, S.Rc_real, conjTranspose_mul, conjTranspose_mul, conjTranspose_conjTranspose,
+    Matrix.mul_assoc]
+
+/-- T4'.  The code's block average of a Hermitian model is Hermitian. -/
+theorem blockAverage_hermitian (hT : S.T₁ = S.T₂) (hD : S.D₁ = S.D₂) (X : BlockFn S)
+    (hX : blockDagger S X = X) : blockDagger S (blockAverage S X) = blockAverage S X := by
+  have hadd : ∀ X Y : BlockFn S, blockDagger S (X + Y) = blockDagger S X + blockDagger S Y := by
+    intro X Y; funext R a b i
+    show ((X + Y) (-R) b a i)ᴴ = (X (-R) b a i)ᴴ + (Y (-R) b a i)ᴴ
+    rw [← conjTranspose_add]; rfl
+  have hzero : blockDagger S (0 : BlockFn S) = 0 := by
+    funext R a b i
+    show ((0 : BlockFn S) (-R) b a i)ᴴ = 0
+    exact conjTranspose_zero
+  let J : BlockFn S →+ BlockFn S := { toFun := blockDagger S, map_zero' := hzero, map_add' := hadd }
+  have hJK : ∀ (q : ℚ) (v : BlockFn S), J (q • v) = q • J v := by
+    intro q v; funext R a b i
+    show ((q • v) (-R) b a i)ᴴ = q • (v (-R) b a i)ᴴ
+    have e : (q • v) (-R) b a i = q • v (-R) b a i := rfl
+    rw [e]
+    ext x y
+    simp only [conjTranspose_apply, Matrix.smul_apply, Rat.smul_def, star_mul', star_ratCast]
+  have hJg : ∀ (g : G) (v : BlockFn S), J (g • v) = g • J v := by
+    intro g v
+    show blockDagger S (pull S g⁻¹ v) = pull S g⁻¹ (blockDagger S v)
+    exact blockDagger_pull S hT hD g⁻¹ v
+  rw [average_block_is_group_average]
+  exact avg_hermitian J hJK hJg X hX
+
+end blockherm
+
+section bridge
+variable {K : Type} [Field K] [StarRing K]
+variable {G ι A₁ A₂ : Type} {N1 N2 NC : Nat} [Group G] [AddCommGroup ι] [DistribMulAction G ι]
+    [MulAction G A₁] [MulAction G A₂]
+
+/-- T4''.  The executable entry formula of the model (`WB.C20.pullEntry`, compared number by number with the real
+    `average_XX_block` / `_rotate_XX_L_backwards` by the correspondence check) is the `(p, q)` entry of `pull` — the
+    object of T4.  So "model = code" on the tested inputs plus T4 gives "code = group average" there. -/
+theorem model_entry_is_pull (S : BlockRep G ι A₁ A₂ (Fin N1) (Fin N2) (Fin NC) K) (h : G) (X : BlockFn S)
+    (R : ι) (a : A₁) (b : A₂) (i : Fin NC) (p : Fin N1) (q : Fin N2) :
+    pull S h X R a b i p q =
+      pullEntry star (S.tr h) N1 N2 NC (ext2 (S.Rc h)) (ext2 (S.D₁ h a)) (ext2 (S.D₂ h b))
+        (fun j r s => if hj : j < NC then
+            ext2 (X (h • R + S.T₁ h a - S.T₂ h b) (h • a) (h • b) ⟨j, hj⟩) r s else 0)
+        i.val p.val q.val :=
+  pull_entry S h X R a b i p q
+
+end bridge
 
 /-! ### the concrete shape of the operations: `J` commutes with them -/
 
